@@ -29,7 +29,7 @@ ENGINE = "E2-netsim"
 TECHNIQUE = "runtime monitoring: encode/decode round trip through the real parser under every/random segmentation; refusal + stream-integrity check"
 RULE = ("(a) random box sequences (1..4 boxes, 0..6 pairs, key lengths 1/2/254/255/random, value lengths "
         "0/1/255/256/65534/65535/random, all byte values) x every 1-cut split <= 600 bytes, every 2-cut split "
-        "<= 30 bytes, random splits otherwise; unrepresentable boxes of 12 kinds between two valid boxes.  "
+        "<= 30 bytes, for longer wires cuts inside/around every length prefix plus random splits; unrepresentable boxes of 12 kinds between two valid boxes.  "
         "(b) random values per argument type incl. NaN/inf/-0.0, 4000-digit integers, Decimal specials, all "
         "Unicode planes, nested/empty lists, sub-minute UTC offsets; toString/fromString and callRemote echo.  "
         "Distinct by (wire bytes) for boxes and (type, encoded value) for arguments; empty boxes/None are trivial.")
@@ -38,7 +38,7 @@ ASSUMPTIONS = ["an empty box (no pairs) is representable on the wire (two NUL by
 SHARDS = {"quick": 4, "thorough": 16}
 FLOORS = {"box_streams": 500, "box_split_runs": 20000, "boxes_compared": 20000, "refusal_cases": 300, "refusals_raised": 250,
           "integrity_boxes_after_refusal": 300, "arg_roundtrips": 5000, "callremote_roundtrips": 200,
-          "float_specials": 50, "datetime_subminute": 20, "listof_nested": 50, "max_len_keys": 20, "max_len_values": 5, "overlong_key_rx_cases": 100}
+          "float_specials": 50, "datetime_subminute": 20, "listof_nested": 50, "max_len_keys": 20, "max_len_values": 5, "overlong_key_rx_cases": 100, "long_wire_prefix_cut_runs": 3000}
 READY = True
 
 
@@ -135,6 +135,24 @@ def cuts_for(rng, wire, quick):
         for a in range(1, n):
             for b in range(a + 1, n):
                 yield (a, b)
+    if n > 600:
+        # long wires (keys of 255 / values of 65535 bytes): cut inside and right around every length prefix
+        offs, i = [], 0
+        while i + 2 <= n and len(offs) < 90:
+            L = (wire[i] << 8) | wire[i + 1]
+            offs += [i, i + 1, i + 2, i + 3]
+            i += 2 + L
+            offs.append(i - 1)
+        offs = sorted(set(o for o in offs if 0 < o < n))
+        for o in offs:
+            if (o,) not in seen:
+                seen.add((o,))
+                yield (o,)
+        pairs = [(a, b) for k, a in enumerate(offs) for b in offs[k + 1:k + 4]]
+        for c in (pairs if len(pairs) <= 60 else rng.sample(pairs, 60)):
+            if c not in seen:
+                seen.add(c)
+                yield c
     for _ in range(4 if n < 3000 else 2):
         if n >= 3000:
             c = tuple(sorted(set(rng.randrange(1, n) for _ in range(rng.randint(1, 8)))))
@@ -199,6 +217,8 @@ def check_box_stream(ctx, amp, rng, boxes, only_cuts=None, case=None):
     for cuts in cut_list:
         got, closed, err = receive(amp, pieces_of(wire, cuts))
         ctx.count("box_split_runs")
+        if len(wire) > 600 and cuts:
+            ctx.count("long_wire_prefix_cut_runs")
         ctx.count("boxes_compared", len(expected))
         if err or closed or got != expected:
             key = "box-receiver-raises" if err else "box-receiver-closes-on-valid-stream" if closed else "box-roundtrip-mismatch"
@@ -639,7 +659,7 @@ def run(ctx):
     types = build_types(amp)
     echo = build_echo(amp, types)
     samples = 0
-    for i in ctx.cases(3000, 250000):
+    for i in ctx.cases(2400, 250000):
         boxes, wire, nruns = do_case(ctx, amp, types, echo, "box", i)
         if samples < 2 and len(wire) < 60 and any(boxes):
             samples += 1
